@@ -17,7 +17,7 @@ PART = {
       "Carquet.Properties.C07.C07_crc_init_discipline",
       "Carquet.Properties.C07.C07_cpu_info_memset_not_idempotent",
     ],
-    components=["par"],
+    components=["par", "parnull"],
     fidelity={"Impl.Par": "structural"},
     rule="par: per codec (UNCOMPRESSED, SNAPPY, ZSTD) one file written by the real writer (8 REQUIRED columns "
          "INT32/INT64/FLOAT/DOUBLE/FLBA16/BOOLEAN/BYTE_ARRAY/INT32, 24576 rows quick / 61440 thorough, 8192-row row groups, "
